@@ -265,6 +265,23 @@ def check_C01(v, tier, seed):
     cov = coverage_of(runs)
     cov["tie_mismatches"] = broken
     cov["kernel_oracle_comparisons"] = sum(1 for r in runs for c in r.cases if c.kern is not None)
+    # the trusted kernel specification (World.resolveInRoot) evaluated by the model driver on the
+    # generated tree, against the live kernel's raw openat2 answer
+    spec = {"ok": 0, "skip": 0, "DIFF": 0}
+    for r in runs:
+        by_id = {c.id: c for c in r.cases}
+        for cid, (verdict, line) in r.extra.get("spec", {}).items():
+            spec[verdict] = spec.get(verdict, 0) + 1
+            if verdict == "DIFF" and (r.name, cid) not in concrete:
+                c = by_id.get(cid)
+                facts = case_facts(c) if c else {}
+                facts["kind"] = "spec"
+                facts["verdict"] = line
+                v.fail(facts, case_replay(c, "the kernel specification World.resolveInRoot (Kernel/World.lean) disagrees with the "
+                                             "live kernel's openat2 on this tree and path: " + line,
+                                          {"broken": ["validation of World.resolveInRoot against raw openat2"]}),
+                       concrete=False)
+    cov["spec_vs_live_kernel"] = spec
     return cov
 
 
